@@ -171,6 +171,7 @@ type Gen struct {
 	lateType           pb.MessageType
 	lateTypeP          float64
 	exploited          bool // the first violation of another property has been followed up
+	lastCtx            map[uint64]int
 }
 
 func pick(rng *rand.Rand, ws []float64) int {
@@ -319,7 +320,7 @@ func DrawConfig(rng *rand.Rand, p Profile, runSeed uint64) RunConfig {
 func NewGen(runSeed uint64, p Profile, opt Options) *Gen {
 	rng := rand.New(rand.NewPCG(runSeed, Mix(runSeed, 0x9e11)))
 	rc := DrawConfig(rng, p, runSeed)
-	g := &Gen{rng: rng, p: p, gn: map[uint64]*genNode{}, removed: map[uint64]bool{}}
+	g := &Gen{rng: rng, p: p, gn: map[uint64]*genNode{}, removed: map[uint64]bool{}, lastCtx: map[uint64]int{}}
 	g.c = NewCluster(rc, opt)
 	g.maxActions = p.MinActions + rng.IntN(p.MaxActions-p.MinActions+1)
 	g.faultFree = chance(rng, p.PFaultFree)
@@ -821,7 +822,20 @@ func (g *Gen) clientOp() {
 		if id == 0 {
 			return
 		}
+		// duplicate request contexts: now and then a client re-uses a context
+		// that was issued before, at this node or at another one (raft keys its
+		// pending reads by context)
+		if g.nextCtx > 0 && chance(g.rng, 0.08) {
+			ctx := g.lastCtx[id]
+			if ctx == 0 || chance(g.rng, 0.4) {
+				ctx = 1 + g.rng.IntN(g.nextCtx)
+			}
+			g.c.stats.probe("read_context_reused")
+			g.do(Action{K: AReadIndex, N: id, I: ctx})
+			return
+		}
 		g.nextCtx++
+		g.lastCtx[id] = g.nextCtx
 		g.do(Action{K: AReadIndex, N: id, I: g.nextCtx})
 	case 4:
 		id := g.targetNode(0.8)
